@@ -158,7 +158,16 @@ def check_C09(tier):
         base += sc.no_receivers("C09n", fam, caps=(1,), fut=fut) + sc.traffic("C09t", fam, fut=fut, caps=(1,))[:2]
     seqs = []
     for s_ in sc.with_epoch_pending(base):
-        flat = [op for ph in s_["phases"] for th in ph for op in th]
+        flat = []
+        for ph in s_["phases"]:
+            for th in ph:
+                for op in th:
+                    o = dict(op)
+                    # one thread: nothing may wait for another thread
+                    o["op"] = {"fsend": "start_send", "frecv": "poll", "frecv_all": "poll", "brecv_all": "drain",
+                               "recv_all": "drain", "poll_all": "poll", "brecv": "recv"}.get(o["op"], o["op"])
+                    o.pop("retry", None)
+                    flat.append(o)
         s2 = dict(s_)
         s2["phases"] = [[flat]]
         seqs.append(s2)
